@@ -261,6 +261,102 @@ def h_stable_long(cname, n, ascending):
     return discharge(h, '%s stable sort of %d equal keys asc=%d' % (cname, n, ascending), oracle, [], timeout_ms=30000, extra=dict(bounds=dict(n=n)))
 
 
+MAX_STRLEN = 4
+
+
+def stub_strncmp(eng, fr, ins, st, name, argv):
+    """strncmp / memcmp over symbolic bytes (unsigned comparison; strncmp also stops after a NUL); a symbolic count is split over 0..MAX_STRLEN"""
+    from . import nodeh
+    n = z3.simplify(argv[2])
+
+    def bytes_of(p, cnt):
+        cs = [(g, q) for g, q in nodeh.ptr_cases(p) if q.obj is not None]
+        if len(cs) != 1:
+            raise nodeh.Unsupported('%s on a merged pointer' % name)
+        o, off = st.mem.o[cs[0][1].obj], cs[0][1].off
+        return [z3.Select(o.arr, z3.simplify(off + j)) for j in range(cnt)]
+
+    def upto(cnt):
+        a, b = bytes_of(argv[0], cnt), bytes_of(argv[1], cnt)
+        r = z3.BitVecVal(0, 32)
+        for x, y in reversed(list(zip(a, b))):
+            tail = r if name != 'strncmp' else z3.If(x == 0, z3.BitVecVal(0, 32), r)
+            r = z3.If(x == y, tail, z3.If(z3.ULT(x, y), z3.BitVecVal(-1, 32), z3.BitVecVal(1, 32)))
+        return r
+    if z3.is_bv_value(n):
+        return z3.simplify(upto(n.as_long()))
+    eng.add_obl('contract', st, z3.UGT(n, MAX_STRLEN), '%s count beyond the string lengths of this harness' % name, eng.where(fr, ins))
+    r = upto(MAX_STRLEN)
+    for c in reversed(range(MAX_STRLEN)):
+        r = z3.If(n == c, upto(c), r)
+    return z3.simplify(r)
+
+
+@guard
+def h_argsort_strings(groups, slens, ascending, stable):
+    """awkward_ListOffsetArray_argsort_strings: inside every group of strings the positions handed back are a permutation of the group's
+    positions that puts the strings in byte-wise lexicographic order (a proper prefix first; any byte value, NUL included, takes part),
+    reversed for descending, and equal strings keep their input order in both directions when stable"""
+    cname = 'awkward_ListOffsetArray_argsort_strings'
+    n = len(slens)
+    assert sum(groups) == n
+    h = Harness(cname, unwind=60, max_instrs=3000000)
+    add_stubs(h)
+    h.eng.stubs.update({'strncmp': stub_strncmp, 'memcmp': stub_strncmp, 'bcmp': stub_strncmp})
+    starts = [sum(slens[:i]) for i in range(n)]
+    stops = [starts[i] + slens[i] for i in range(n)]
+    parents = [g for g, l in enumerate(groups) for _ in range(l)]
+    total = max(1, sum(slens))
+    h.scalar('length', 'int64_t', n)
+    h.scalar('is_stable', 'bool', stable); h.scalar('is_ascending', 'bool', ascending); h.scalar('is_local', 'bool', True)
+    h.arr('stringdata', 'uint8_t', total, const=True)
+    h.array('fromparents', 'int64_t', max(1, n), const=True, values=parents or [0])
+    h.array('stringstarts', 'int64_t', max(1, n), const=True, values=starts or [0])
+    h.array('stringstops', 'int64_t', max(1, n), const=True, values=stops or [0])
+    h.arr('tocarry', 'int64_t', max(1, n))
+    h.kcall(cname, [('buf', 'tocarry'), ('buf', 'fromparents'), 'length', ('buf', 'stringdata'), ('buf', 'stringstarts'), ('buf', 'stringstops'), 'is_stable', 'is_ascending', 'is_local'])
+
+    def oracle(io):
+        out = [('no error', io.err())]
+        ch = lambda i, j: io.x('stringdata', starts[i] + j)
+
+        def lt(i, j):          # string i strictly before string j, ascending
+            m = min(slens[i], slens[j])
+            r = z3.BoolVal(slens[i] < slens[j])
+            for k in reversed(range(m)):
+                r = z3.If(ch(i, k) == ch(j, k), r, ch(i, k) < ch(j, k))
+            return r
+        base = 0
+        for g, l in enumerate(groups):
+            members = list(range(base, base + l))
+            ps = [io.y('tocarry', base + k) for k in range(l)]
+            for k in range(l):
+                out.append(('group %d: position %d is group-local' % (g, k), z3.Or(ps[k] < 0, ps[k] >= l)))
+            for k1 in range(l):
+                for k2 in range(k1 + 1, l):
+                    out.append(('group %d: positions %d and %d are distinct' % (g, k1, k2), ps[k1] == ps[k2]))
+
+            def rel(p, q, f):
+                return z3.Or([z3.And(p == a_, q == b_, f(members[a_], members[b_])) for a_ in range(l) for b_ in range(l)] + [z3.BoolVal(False)])
+            first = (lambda i, j: lt(i, j)) if ascending else (lambda i, j: lt(j, i))
+            for k in range(l - 1):
+                out.append(('group %d: positions realise the order at %d' % (g, k), rel(ps[k + 1], ps[k], first)))
+                if stable:
+                    eq = z3.And(z3.Not(rel(ps[k], ps[k + 1], first)), z3.Not(rel(ps[k + 1], ps[k], first)))
+                    out.append(('group %d: equal strings keep their input order at %d' % (g, k), z3.And(eq, ps[k] > ps[k + 1])))
+            base += l
+        return out
+    return discharge(h, '%s groups=%s string lengths=%s asc=%d stable=%d' % (cname, list(groups), list(slens), ascending, stable), oracle, [], timeout_ms=30000,
+                     extra=dict(bounds=dict(groups=list(groups), string_lengths=list(slens))))
+
+
+def jobs_strings(tier):
+    shapes = [((2,), (1, 1)), ((3,), (1, 1, 1)), ((2,), (2, 1)), ((2, 1), (1, 1, 2)), ((2,), (2, 2)), ((0,), ())]
+    if tier != 'quick':
+        shapes += [((3,), (2, 1, 2)), ((1, 2), (0, 1, 1)), ((2,), (0, 0)), ((3,), (0, 1, 0)), ((2, 2), (1, 1, 1, 1)), ((2,), (3, 2))]
+    return [(h_argsort_strings, (g, sl, asc, stb), 900) for g, sl in shapes for asc in (True, False) for stb in (True, False)]
+
+
 def jobs(tier):
     K = kspec.by_name()
     js = []
@@ -303,7 +399,7 @@ def jobs(tier):
 
 def all_jobs(tier):
     from . import extra_misc, mnode
-    return jobs(tier) + extra_misc.jobs_for('C06', tier) + mnode.jobs_for('C06', tier)
+    return jobs(tier) + jobs_strings(tier) + extra_misc.jobs_for('C06', tier) + mnode.jobs_for('C06', tier)
 
 
 def main(report, tier):
